@@ -38,7 +38,7 @@ theorem skip_never_raises (s : List (Step D)) :
   refine ⟨gen_skip_raised s [], ?_⟩
   simp [decode, decodeLoop_skip, gen_skip_raised, gen_skip_data]
 
-example : decode .skip [Step.collect 7, .flush, .result "d", .direct 9] = .ok (.one "d", []) := by
+example : decode .skip [Step.collect 7, .flush, .result "d", .direct 9 true] = .ok (.one "d", []) := by
   decide
 
 /-! ### validation API -/
@@ -67,7 +67,7 @@ theorem isValid_iff (sv : List (Step D)) (hv : results sv = []) :
   rw [key]
   cases iterErrors sv <;> simp
 
-example : isValid ([Step.collect 3, .collect 4, .flush, .direct 5] : List (Step Nat)) = .ok false := by decide
+example : isValid ([Step.collect 3, .collect 4, .flush, .direct 5 true] : List (Step Nat)) = .ok false := by decide
 example : isValid ([Step.flush] : List (Step Nat)) = .ok true := by decide
 
 /-- what `validate` does, for every script: it raises the first error event, or returns. -/
@@ -93,15 +93,15 @@ theorem validate_raises_first (sv : List (Step D)) (h : wf sv false = true) (e :
   rw [validate_spec, iterErrors_spec sv h]
   cases events sv <;> simp
 
-example : wf ([Step.collect 3, .collect 4, .flush, .direct 5] : List (Step Nat)) false = true ∧
-    validate ([Step.collect 3, .collect 4, .flush, .direct 5] : List (Step Nat)) = .raise 3 := by decide
+example : wf ([Step.collect 3, .collect 4, .flush, .direct 5 true] : List (Step Nat)) false = true ∧
+    validate ([Step.collect 3, .collect 4, .flush, .direct 5 true] : List (Step Nat)) = .raise 3 := by decide
 
 /-- The discipline `wf` is needed: a generator that yielded a direct error while collected errors
     are pending would report a different first error in lax mode than the one strict mode raises.
     (No generator of the code does this; the harness checks `wf` on every recorded script.) -/
 theorem validate_raises_first_needs_wf :
-    validate ([Step.collect 1, .direct 2, .flush] : List (Step Nat)) = .raise 1 ∧
-    (iterErrors ([Step.collect 1, .direct 2, .flush] : List (Step Nat))).head? = some 2 := by decide
+    validate ([Step.collect 1, .direct 2 true, .flush] : List (Step Nat)) = .raise 1 ∧
+    (iterErrors ([Step.collect 1, .direct 2 true, .flush] : List (Step Nat))).head? = some 2 := by decide
 
 /-! ### decoding API -/
 
@@ -149,7 +149,7 @@ theorem decode_valid_mode_independent (sd : List (Step D)) (h : wf sd false = tr
   rw [decode_strict_spec, (skip_never_raises sd).2]
   cases he : events sd <;> simp_all
 
-example : wf [Step.flush, .result "x", .direct 1] false = true := by decide
+example : wf [Step.flush, .result "x", .direct 1 true] false = true := by decide
 example : decode .lax [Step.collect 1, .collect 2, .flush, .result "x"] = .ok (.one "x", [1, 2]) := by
   decide
 
@@ -225,7 +225,7 @@ theorem first_errors_agree (sv sd : List (Step D)) (hv : wf sv false = true)
     (schemas.py:1391), `iter_decode` of a fully loaded document skipped it (schemas.py:1612) —
     and the verdicts differ.  Replayed on the real code by the harness (finding C04-F2). -/
 theorem verdicts_differ_without_same_events_counterexample :
-    let sv : List (Step Nat) := [.flush, .direct 0]
+    let sv : List (Step Nat) := [.flush, .direct 0 true]
     let sd : List (Step Nat) := [.flush, .result 7]
     wf sv false = true ∧ wf sd false = true ∧ isValid sv = .ok false ∧
     decode .strict sd = .ok (.one 7, []) ∧ decode .lax sd = .ok (.one 7, []) := by decide
@@ -246,29 +246,29 @@ theorem mix_agree (c : Core D) (e : Err) :
 /-- the schema-level generators around one component run: `iter_errors` = run, flush, references;
     `iter_decode` = run, flush, result, references. -/
 def embedVal (c : Core D) (refs : List Err) : List (Step D) :=
-  c.events.map .collect ++ [.flush] ++ refs.map .direct
+  c.events.map .collect ++ [.flush] ++ refs.map (Step.direct · false)
 
 def embedDec (c : Core D) (refs : List Err) : List (Step D) :=
   c.events.map .collect ++ [.flush] ++ (match c.value with | some d => [.result d] | none => []) ++
-    refs.map .direct
+    refs.map (Step.direct · false)
 
-theorem events_embed (ev refs : List Err) (mid : List (Step D)) (hm : events (mid ++ refs.map .direct) = refs) :
-    events (ev.map Step.collect ++ [.flush] ++ mid ++ refs.map .direct) = ev ++ refs := by
+theorem events_embed (ev refs : List Err) (mid : List (Step D)) (hm : events (mid ++ refs.map (Step.direct · false)) = refs) :
+    events (ev.map Step.collect ++ [.flush] ++ mid ++ refs.map (Step.direct · false)) = ev ++ refs := by
   induction ev with
   | nil => simpa [events] using hm
   | cons e k ih => simpa [events] using ih
 
-theorem events_directs (refs : List Err) : events (refs.map (Step.direct (D := D))) = refs := by
+theorem events_directs (refs : List Err) : events (refs.map (Step.direct (D := D) · false)) = refs := by
   induction refs with
   | nil => rfl
   | cons e k ih => simp [events, ih]
 
-theorem tail2_directs (refs : List Err) : tail2 (refs.map (Step.direct (D := D))) = true := by
+theorem tail2_directs (refs : List Err) : tail2 (refs.map (Step.direct (D := D) · false)) = true := by
   induction refs with
   | nil => rfl
   | cons e k ih => simp [tail2, ih]
 
-theorem wf_directs (refs : List Err) : wf (refs.map (Step.direct (D := D))) false = true := by
+theorem wf_directs (refs : List Err) : wf (refs.map (Step.direct (D := D) · false)) false = true := by
   induction refs with
   | nil => rfl
   | cons e k ih => simp [wf, ih, tail2_directs]
@@ -298,7 +298,7 @@ theorem component_eq_schema (c : Core D) (refs : List Err) :
     · simpa [embedDec] using events_embed ev refs ([] : List (Step D)) (by simpa using events_directs refs)
     · simpa [embedDec] using events_embed ev refs [Step.result _] (by simpa [events] using events_directs refs)
   have rd : results (embedDec ⟨ev, v⟩ refs) = v.toList := by
-    have hdir : ∀ l : List Err, results (l.map (Step.direct (D := D))) = [] := by
+    have hdir : ∀ l : List Err, results (l.map (Step.direct (D := D) · false)) = [] := by
       intro l; induction l with
       | nil => rfl
       | cons e k ih => simp [results, ih]
